@@ -216,7 +216,8 @@ ADD3 = {
            "typestate attribute set only by the advance helper) and re-advances before the retry; restore/acceptance of ImplicitIter.step decided on "
            "truth tables of the enclosing conditions.",
     "C05": "Accumulating initialisers (v_str_add) start from cleared arrays on every initialisation (whole-array clear on every path of TDS.init to System.init); "
-           "every bus injection of a model with a connection status vanishes identically for u = 0 (symbolic, internal algebraic variables eliminated).",
+           "every bus injection of a model with a connection status vanishes identically for u = 0 (symbolic, internal algebraic variables eliminated); "
+           "discrete components and blocks refer to the objects registered in their model (object identity on the elaborated models).",
     "C06": "One do_switch call hands a model to switch_action at most once; the schedule dict is created where it is filled, in sorted order; the event "
            "pointer is re-assigned after every rebuild of the schedule before it is read; only System.store_switch_times writes the schedule.",
     "C11": "Model.alter / GroupBase.alter / ModelData.as_dict evaluated over the kinds of altered / exported object with symbolic value and coefficient.",
@@ -233,10 +234,11 @@ ADD3 = {
            "code non-zero iff a case failed; every success flag the property lists (busted, test_ok) is consulted with a refusing branch on every path to "
            "the dependent work of TDS.run and EIG; the operand of the stability criterion is established by TDS.init whenever the criterion is enabled; "
            "library-solver failure exceptions (contract table) are turned into converged = False; the Newton increment already applied to the state is "
-           "NaN-tested before the success verdict.",
+           "NaN-tested before the success verdict; no call site discards the status of a failure-status function.",
     "C19": "GroupBase.get_next_idx, DeviceFinder.find_or_add and ModelData.add evaluated over registries with collisions / rejecting parameters: generated "
            "idx never registered, loop terminates, explicit idx kept iff free, helper device found or added once, rejected device leaves no trace; an "
-           "unregistered idx raises whatever allow_none is; Group.get returns the values the devices hold for any mixture of numbers and strings.",
+           "unregistered idx raises whatever allow_none is; Group.get returns the values the devices hold for any mixture of numbers and strings; group find_idx "
+           "answers from whichever model holds the field.",
     "C20": "Constants assigned by the program to an enumerated configuration field are declared alternatives of the declared type; the per-element work of an "
            "apply-to-all loop has not slipped out of the loop (a call after the loop that uses its loop variable), applied to the check of every model class.",
 }
